@@ -17,7 +17,7 @@ def _rec(name, ret=None, keep_kwargs=False):
     return h
 
 
-def serial_rows(idx, method, members=2):
+def serial_rows(idx, method, members=2, collect=False):
     fi = idx.method("CsvPaths", method)
     runcall = {"collect_paths": "collect", "fast_forward_paths": "fast_forward", "next_paths": "next"}[method]
 
@@ -41,6 +41,7 @@ def serial_rows(idx, method, members=2):
 
     def run(interp, call, recv, args, kwargs):
         interp.record_call("run", recv.name)
+        interp.record_call("run-args", (recv.name, dict(kwargs)))
         if interp.choose(f"run({recv.name}) raises", [False, True], memo=False):
             raise Raised("ValueError")
         return [Residual(f"{recv.name}.L0")] if runcall == "next" else None
@@ -70,13 +71,14 @@ def serial_rows(idx, method, members=2):
         "." + runcall: run,
         "ErrorHandler": handler_ctor,
         "eh.handle_error": handle_error,
+        ".append": lambda i, c, r, a, k: i.record_call("result.append", (r.name, getattr(a[0], "text", a[0]))),
     }
     it = Interp(idx, types={"self": "CsvPaths"}, unknown_calls="residual", handlers=handlers, inline_all={"CsvPaths"},
                 domains={"self._skip_all": [False], "self._stop_all": [False], "self._advance_all": [0], "self._fail_all": [False],
                          "self.current_run_time": [Residual("RUNTIME")]})
     args = {"pathsname": "P", "filename": "F"}
     if method == "next_paths":
-        args["collect"] = False
+        args["collect"] = collect
     paths = it.run_all(fi, args=args)
     return fi, paths
 
